@@ -31,6 +31,11 @@ def make_case(r):
             lines.append(f'(assert (f{i} a{i} b{i}))')
         else:
             lines.append(f'(assert (g{i} (h{i} a{i}) (k{i} b{i} c{i})))')
+    if r.random() < 0.5:
+        # top-level leaves: erasing one removes no s-expression
+        for k in range(r.randint(1, 4)):
+            lines.insert(r.randint(0, len(lines)),
+                         r.choice([f'stray{k}', f'"top {k}"', f':kw{k}']))
     text = '\n'.join(lines) + '\n(check-sat)\n'
     pred = r.choice(['all', 'all', 'has:check-sat', 'hash:4:0,1,2'])
     d = r.choice([2000, 5000, 10000])
